@@ -475,12 +475,25 @@ pub enum Ctor {
 /// Runs with the in-crate allocation depth raised; may panic (the caller catches).
 pub fn make(kind: Kind, ctor: Ctor, cap: usize, ids: &[u32], start: Option<usize>) -> Box<dyn Subject> {
     let w = w();
+    // from_iter / join_all are sometimes fed an iterator whose size_hint lower bound is below its
+    // real length (a `filter`), as user code does
+    let inexact = w.rng.borrow_mut().chance(1, 3);
+    fn it<T>(v: Vec<T>, inexact: bool) -> Box<dyn Iterator<Item = T>>
+    where
+        T: 'static,
+    {
+        if inexact {
+            Box::new(v.into_iter().filter(|_| true))
+        } else {
+            Box::new(v.into_iter())
+        }
+    }
     match kind {
         Kind::Fub => match ctor {
             Ctor::FromIter => {
                 let v: Vec<Child> = ids.iter().map(|i| Child::new(*i)).collect();
                 let _g = enter_crate();
-                Box::new(SFub(v.into_iter().collect()))
+                Box::new(SFub(it(v, inexact).collect()))
             }
             _ => {
                 let _g = enter_crate();
@@ -491,7 +504,7 @@ pub fn make(kind: Kind, ctor: Ctor, cap: usize, ids: &[u32], start: Option<usize
             Ctor::FromIter => {
                 let v: Vec<Child> = ids.iter().map(|i| Child::new(*i)).collect();
                 let _g = enter_crate();
-                Box::new(SFu(v.into_iter().collect()))
+                Box::new(SFu(it(v, inexact).collect()))
             }
             Ctor::WithCap => {
                 let _g = enter_crate();
@@ -506,7 +519,7 @@ pub fn make(kind: Kind, ctor: Ctor, cap: usize, ids: &[u32], start: Option<usize
             Ctor::FromIter => {
                 let v: Vec<Child> = ids.iter().map(|i| Child::new(*i)).collect();
                 let _g = enter_crate();
-                Box::new(SFob(v.into_iter().collect()))
+                Box::new(SFob(it(v, inexact).collect()))
             }
             _ => {
                 let _g = enter_crate();
@@ -521,7 +534,7 @@ pub fn make(kind: Kind, ctor: Ctor, cap: usize, ids: &[u32], start: Option<usize
             Ctor::FromIter => {
                 let v: Vec<Child> = ids.iter().map(|i| Child::new(*i)).collect();
                 let _g = enter_crate();
-                Box::new(SFo(v.into_iter().collect()))
+                Box::new(SFo(it(v, inexact).collect()))
             }
             Ctor::WithCap => {
                 let _g = enter_crate();
@@ -543,13 +556,13 @@ pub fn make(kind: Kind, ctor: Ctor, cap: usize, ids: &[u32], start: Option<usize
         Kind::MergeB => {
             let v: Vec<Src<PhantomPinned>> = ids.iter().map(|i| Src::new(*i)).collect();
             let _g = enter_crate();
-            Box::new(SMergeB(v.into_iter().collect()))
+            Box::new(SMergeB(it(v, inexact).collect()))
         }
         Kind::MergeU => match ctor {
             Ctor::FromIter => {
                 let v: Vec<Src<()>> = ids.iter().map(|i| Src::new(*i)).collect();
                 let _g = enter_crate();
-                Box::new(SMergeU(v.into_iter().collect()))
+                Box::new(SMergeU(it(v, inexact).collect()))
             }
             _ => {
                 let _g = enter_crate();
@@ -594,12 +607,12 @@ pub fn make(kind: Kind, ctor: Ctor, cap: usize, ids: &[u32], start: Option<usize
         Kind::JoinAll => {
             let v: Vec<Child> = ids.iter().map(|i| Child::new(*i)).collect();
             let _g = enter_crate();
-            Box::new(SJoin(join_all(v)))
+            Box::new(SJoin(join_all(it(v, inexact))))
         }
         Kind::TryJoinAll => {
             let v: Vec<TryChild> = ids.iter().map(|i| TryChild(Child::new(*i))).collect();
             let _g = enter_crate();
-            Box::new(STryJoin(try_join_all(v)))
+            Box::new(STryJoin(try_join_all(it(v, inexact))))
         }
     }
 }
